@@ -182,6 +182,10 @@ class Recorder:
         menu = ["none", "done"] + [("next_state", t) for t in targets]
         if self.cfg.get("done_then_next"):
             menu += [("done_next", t) for t in targets[:2]]
+        if self.cfg.get("force_acts"):
+            # "start over / jump" written as engage(force=True[, initial_state]) inside a state function: the same as
+            # next_state(<first or given state>) - the machine's clock keeps running
+            menu += [("eforce", None)] + [("eforce", t) for t in targets[:1]]
         if allow_nsn:
             menu += [("nsn", t) for t in targets]
             if self.cfg.get("double_nsn") and len(targets) >= 2:
@@ -198,6 +202,15 @@ class Recorder:
         if a[0] == "next_state":
             call.action, call.target = "next_state", a[1]
             sm.next_state(a[1])
+            return
+        if a[0] == "eforce":
+            tgt = a[1] or first_state(self.meta)
+            call.action, call.target = "next_state", tgt
+            c.reach("forced-engage-inside-a-state")
+            if a[1] is None:
+                sm.engage(force=True)
+            else:
+                sm.engage(initial_state=a[1], force=True)
             return
         if a[0] == "done_next":
             # done() and then (a forgotten return) a transition request in the same invocation
